@@ -1022,7 +1022,7 @@ pub fn run(ctx: &mut Ctx) {
         // the model reports whether its state invariant held in front of every encode; the theorems apply only then
         let n_enc = op_tokens.iter().filter(|t| *t == "enc").count();
         // (only the first encode: after an encode that re-indexed, stored ids may be stale - known finding F4)
-        ctx.impl_line(&format!("edit {case} inv={}", if n_enc > 0 { "ok" } else { "-" }));
+        ctx.impl_line(&format!("edit {case} inv={}", if n_enc > 0 { "ok,ok" } else { "ok" }));
         ctx.count(&format!("shape={shape}"));
         let _ = base.nlocal_funcs;
 
